@@ -4,6 +4,7 @@ from __future__ import annotations
 
 from typing import Tuple
 
+import math
 import sys
 
 
@@ -36,11 +37,24 @@ class DCMotor:
             speed = float(value)
         except (TypeError, ValueError) as exc:
             raise TypeError("speed must be a number") from exc
+        if math.isnan(speed):
+            raise ValueError("speed must not be NaN")
         if speed > 1.0:
             return 1.0
         if speed < -1.0:
             return -1.0
         return speed
+
+    @staticmethod
+    def _check_duration(duration_ms: float) -> None:
+        if duration_ms < 0:
+            raise ValueError("duration must be non-negative")
+        try:
+            finite = math.isfinite(duration_ms)
+        except OverflowError:
+            finite = False
+        if not finite:
+            raise ValueError("duration must be a finite number")
 
     def get_speed(self) -> float:
         """Return the last requested (pre-inversion) speed."""
@@ -106,8 +120,7 @@ class DCMotor:
     def ramp(self, target_speed: float, duration_ms: float) -> None:
         """Linearly ramp from the current speed to ``target_speed``."""
 
-        if duration_ms < 0:
-            raise ValueError("duration must be non-negative")
+        self._check_duration(duration_ms)
 
         target = self._clamp_speed(target_speed)
         start = self._speed
@@ -125,8 +138,7 @@ class DCMotor:
     def run_for(self, duration_ms: float, speed: float) -> None:
         """Drive the motor at ``speed`` for ``duration_ms`` milliseconds."""
 
-        if duration_ms < 0:
-            raise ValueError("duration must be non-negative")
+        self._check_duration(duration_ms)
 
         self.set_speed(speed)
         _sleep(duration_ms)
